@@ -43,6 +43,9 @@ enum Sc {
     PrimSegment { la: usize, lb: usize, start: usize, end: usize, seed: u64 },
     /// N seeded two-point crossovers: every segment must occur
     Reach { container: Container, len: usize, n: u64, seed: u64 },
+    /// N seeded uniform crossovers: positions are decided independently
+    /// (joint frequency of position pairs at several distances == 1/4)
+    Indep { container: Container, len: usize, n: u64, seed: u64, cells_total: u64 },
 }
 
 type Tagged = (u8, usize);
@@ -420,6 +423,66 @@ fn exec_reach(container: Container, len: usize, n: u64, seed: u64, obs: &mut Obs
     v
 }
 
+const INDEP_LENS: [usize; 5] = [2, 9, 33, 65, 130];
+const INDEP_DISTS: [usize; 8] = [1, 2, 7, 8, 16, 32, 64, 128];
+
+fn indep_pairs(len: usize) -> Vec<(usize, usize)> {
+    let mut v = Vec::new();
+    for d in INDEP_DISTS {
+        if d < len {
+            for i in [0, 1, (len - d) / 2, len - d - 1] {
+                if i + d < len && !v.contains(&(i, i + d)) {
+                    v.push((i, i + d));
+                }
+            }
+        }
+    }
+    v
+}
+
+fn indep_cells_total() -> u64 {
+    INDEP_LENS.iter().map(|l| indep_pairs(*l).len() as u64).sum::<u64>() * CONTAINERS.len() as u64
+}
+
+fn exec_indep(container: Container, len: usize, n: u64, seed: u64, cells_total: u64, obs: &mut Obs) -> Vec<Violation> {
+    let mut rng = FastRng::new(seed);
+    let pairs = indep_pairs(len);
+    let mut joint = vec![0u64; pairs.len()];
+    for _ in 0..n {
+        let r = catch(|| run_xo(Kind::Uniform, container, len, len, None, &mut rng));
+        match r {
+            Ok(Out::Child { from_b, .. }) if from_b.len() == len => {
+                for (k, (i, j)) in pairs.iter().enumerate() {
+                    if from_b[*i] == Some(true) && from_b[*j] == Some(true) {
+                        joint[k] += 1;
+                    }
+                }
+            }
+            _ => return Vec::new(), // the exact clauses report panics / errors / wrong lengths
+        }
+    }
+    obs.count("steps", n);
+    obs.nontrivial(mix(mix(4, len as u64), container as u64));
+    let mut v = Vec::new();
+    for (k, (i, j)) in pairs.iter().enumerate() {
+        let verdict = simcore::stats::decide(n, joint[k], 0.25, cells_total);
+        obs.hit("stat-cells");
+        if verdict.violated {
+            v.push(Violation::new(
+                "uniform-decides-positions-independently",
+                format!("dependent-positions:{container:?}:distance-{}", j - i),
+                format!(
+                    "uniform crossover of length-{len} parents: positions {i} and {j} both came from the second parent in {} of {n} runs \
+                     (independent fair choices give 1/4; n*KL = {:.1} > threshold {:.1})",
+                    joint[k], verdict.stat, verdict.threshold
+                ),
+            ));
+            break;
+        }
+    }
+    v
+}
+
 struct C10 {
     prims: Vec<Sc>,
 }
@@ -446,6 +509,10 @@ impl C10 {
     fn reach_runs(&self) -> u64 {
         (CONTAINERS.len() * 7) as u64
     }
+
+    fn indep_runs(&self) -> u64 {
+        (CONTAINERS.len() * INDEP_LENS.len()) as u64
+    }
 }
 
 impl Check for C10 {
@@ -459,7 +526,8 @@ impl Check for C10 {
         format!(
             "(1) exhaustively enumerated exchange primitives on bitstrings: crossover_gene / crossover_segment for all length pairs <= 5 x all \
              indices / (start,end) in 0..=max+2 incl. start > end ({} cells, 4 value draws each in thorough); (2) reachability: for every length 0..=6 and \
-             container, N seeded two-point crossovers must show every segment; (3) seeded single recombinations of tagged parents \
+             container, N seeded two-point crossovers must show every segment; (2b) independence: for lengths 2..130 N seeded uniform crossovers, joint origin of position pairs at distances 1..128 vs 1/4 (KL rule, total \
+             false-alarm budget 1e-9); (3) seeded single recombinations of tagged parents \
              (TwoPointXo/UniformXo x [Vec;2]/(Vec,Vec)/[Bitstring;2]/(Bitstring,Bitstring), lengths 0-8 equal and unequal, seeded and \
              boundary streams). Non-trivial: primitives and reach runs always; a recombination iff parents have length >= 2; distinct = \
              distinct (site, length, per-position origin pattern) resp. cell fingerprints",
@@ -470,6 +538,7 @@ impl Check for C10 {
     fn runs(&self, tier: Tier) -> u64 {
         let prim = self.prims.len() as u64 * if tier == Tier::Quick { 1 } else { 4 };
         prim + self.reach_runs()
+            + self.indep_runs()
             + match tier {
                 Tier::Quick => 400_000,
                 Tier::Thorough => 40_000_000,
@@ -497,6 +566,16 @@ impl Check for C10 {
                 seed: g.next_u64(),
             };
         }
+        let r = r - self.reach_runs();
+        if r < self.indep_runs() {
+            return Sc::Indep {
+                container: CONTAINERS[(r % 4) as usize],
+                len: INDEP_LENS[(r / 4) as usize],
+                n: if tier == Tier::Quick { 20_000 } else { 400_000 },
+                seed: g.next_u64(),
+                cells_total: indep_cells_total(),
+            };
+        }
         let kind = if g.coin() { Kind::TwoPoint } else { Kind::Uniform };
         let container = *g.pick(&CONTAINERS);
         let la = match g.below(8) {
@@ -517,7 +596,12 @@ impl Check for C10 {
             Sc::PrimGene { la, lb, index, seed } => exec_prim_gene(*la, *lb, *index, *seed, obs),
             Sc::PrimSegment { la, lb, start, end, seed } => exec_prim_segment(*la, *lb, *start, *end, *seed, obs),
             Sc::Reach { container, len, n, seed } => exec_reach(*container, *len, *n, *seed, obs),
+            Sc::Indep { container, len, n, seed, cells_total } => exec_indep(*container, *len, *n, *seed, *cells_total, obs),
         }
+    }
+
+    fn chunk(&self) -> u64 {
+        4
     }
 
     fn shrink(&self, sc: &Sc) -> Vec<Sc> {
